@@ -1,5 +1,6 @@
 import IodineModel.Props.C08Session
 import IodineModel.Lemmas.OptCli
+import IodineModel.Props.Top
 /-
 C08, continued: what `main()` of iodine.c guarantees when it calls `client_handshake()`, against what the whole-session theorems
 of Props/C08Session.lean assume (`ClientCfgOk L c`).
@@ -104,5 +105,52 @@ example : (clientMain exEnv [Getopt.ascii "iodine", Getopt.ascii "-z", Getopt.as
     (clientMain exEnv [Getopt.ascii "iodine", Getopt.ascii "-T", Getopt.ascii "bogus", Getopt.ascii "ns", Getopt.ascii "t.co"]).outcome = .errx 5 "qtype" ∧
     ((clientMain exEnv [Getopt.ascii "iodine", Getopt.ascii "-Ttxt", Getopt.ascii "-Tbogus", Getopt.ascii "-Ononsense", Getopt.ascii "ns", Getopt.ascii "t.co"]).final.map
       fun f => (f.cli.doQtype, f.cli.downenc)) = some (16, 32) := by decide +kernel
+
+/-! ### From `main()` to the handshake and tunnel machines (phase 2) -/
+
+/-- **client_main_starts_handshake_machine.**  What `client_handshake()` finds is `client_init()` applied to the loader's statics
+(`Cli.boot`, with `dnsc_use_edns0 = 1` as dns.c initialises it) followed by the four setters and the two option-time setters
+(`client_set_qtype`, `client_set_downenc`), for the option values `o` the loop ended with; its arguments are `raw_mode`,
+`autodetect_frag_size`, `max_downstream_frag_size` of `o`.  The machines of Client/Handshake.lean / Client/Tunnel.lean are started on
+exactly this: `hsStart f.cli f.args (cpw f) dev` (`dev` = the device name `open_tun` chose).  Tied to the code: the `main` op of h_cli
+prints, when the substituted `client_handshake()` is called, the full digest of client.c's statics (the one every session op prints)
+and the driver prints `Drv.Client.digest f.cli`. -/
+theorem client_main_starts_handshake_machine (env : Env) (argv : List (List Nat)) (f : Final) (h : Top.CStarts env argv f) :
+    ∃ o td, f.cli = statics env o td ∧ f.args = { rawMode := o.rawMode, autoFrag := o.autoFrag, fragsize := o.fragsize } ∧
+      f.cli = { clientInit Cli.boot env.r1 env.r2 with
+                selecttimeout := o.selecttimeout, lazymode := o.lazymode ≠ 0, topdomain := td, hostnameMaxlen := f.cli.hostnameMaxlen,
+                doQtype := o.doQtype, downenc := o.downenc, edns0 := true } := by
+  obtain ⟨o, td, fam, ip, _, hf, _⟩ := OptL.clientMain_final env argv f h
+  subst hf
+  exact ⟨o, td, rfl, rfl, rfl⟩
+
+/-- **client_queries_legal_from_main.**  For every command line and environment with which iodine reaches `client_handshake()`
+with `hostname_maxlen = L`, `100 ≤ L` and 24 characters of room behind the domain (the two conditions `main()` does not check;
+without `-M` they always hold: `client_queries_legal_default`), every password pointer content, device name, and EVERY query the
+client then emits in the whole session — handshake and tunnel, whatever the answers, time-outs and tun frames are — is legal. -/
+theorem client_queries_legal_from_main (env : Env) (argv : List (List Nat)) (f : Final) (h : Top.CStarts env argv f)
+    (L : Nat) (hL : f.cli.hostnameMaxlen = (L : Int)) (h100 : 100 ≤ L) (hroom : f.cli.topdomain.length + 24 ≤ L)
+    (pw dev : List Nat) (id ty : Nat) (name : List Nat) (he : Emitted f.cli f.args pw dev id ty name) :
+    QueryLegal L f.cli.topdomain id ty name :=
+  client_queries_legal_partial L f.cli f.args pw dev (client_main_establishes_ClientCfgOk env argv f h L hL h100 hroom) id ty name he
+
+/-- … and the datagram built for it is a strictly well-formed query -/
+theorem client_datagrams_wellformed_from_main (env : Env) (argv : List (List Nat)) (f : Final) (h : Top.CStarts env argv f)
+    (L : Nat) (hL : f.cli.hostnameMaxlen = (L : Int)) (h100 : 100 ≤ L) (hroom : f.cli.topdomain.length + 24 ≤ L)
+    (pw dev : List Nat) (id ty : Nat) (name : List Nat) (he : Emitted f.cli f.args pw dev id ty name) :
+    WellFormedQuery id ty name :=
+  client_datagrams_wellformed L f.cli f.args pw dev (client_main_establishes_ClientCfgOk env argv f h L hL h100 hroom) id ty name he
+
+/-- **client_queries_legal_default.**  Without `-M` (hostname_maxlen is still 255): no hypothesis left. -/
+theorem client_queries_legal_default (env : Env) (argv : List (List Nat)) (f : Final) (h : Top.CStarts env argv f)
+    (hM : f.cli.hostnameMaxlen = 255) (pw dev : List Nat) (id ty : Nat) (name : List Nat)
+    (he : Emitted f.cli f.args pw dev id ty name) : QueryLegal 255 f.cli.topdomain id ty name :=
+  client_queries_legal_partial 255 f.cli f.args pw dev (client_main_default_maxlen env argv f h hM) id ty name he
+
+/-- the start of such sessions exists: the handshake machine's first output for the example command line emits a query
+(type NULL probe of the autodetection … or the version request) -/
+example : ((clientMain exEnv exArgvCli).final.map fun f =>
+    ((hsStart f.cli f.args (Top.cpw f) [100, 110, 115, 48]).2.1.any fun e => match e with | .query _ _ _ => true | _ => false))
+    = some true := by decide +kernel
 
 end Iodine.C08
